@@ -1,8 +1,8 @@
 (* C16 — diagnostic trouble codes and lamp states arrive exactly as sent (DM1, DTC, DM22).
    All definitions are generated from /repo (DiagGen) or built from them (Dm1Model, tied by item correspondence). *)
-From J1939 Require Import Base CodecGlue Model21 Dm1Model.
-From J1939.gen Require Import Codec Tp21Gen CaGen DiagGen.
-From J1939P Require Import CodecProofs DiagProofs Flat Tp21Seg Net21 Net21Bam Dm1Net.
+From J1939 Require Import Base CodecGlue Model21 Model22 Dm1Model.
+From J1939.gen Require Import Codec Tp21Gen CaGen DiagGen Tp22Gen.
+From J1939P Require Import CodecProofs DiagProofs Flat Tp21Seg Net21 Net21Bam MpgProofs Net22 Net22Proofs Net22Bam Dm1Net.
 
 Theorem C16_dtc_roundtrip : forall spn fmi oc, 0 <= spn < 524288 -> 0 <= fmi < 32 -> 0 <= oc < 128 ->
   dtc_unpack (dtc_pack spn fmi oc) = (spn, fmi, oc, 0).
@@ -64,3 +64,23 @@ Theorem C16_dm1_over_broadcast_end_to_end : forall pl awl rsl mil dtcs sa t0 A0 
     dm1_parse p = Some ([pl; awl; rsl; mil], dtcs).
 Proof. exact dm1_over_broadcast_end_to_end. Qed.
 Print Assumptions C16_dm1_over_broadcast_end_to_end.
+
+(* ... and on the J1939-22 layer: a DM1 with 15 or more trouble codes (more than 60 bytes: an FD broadcast of the PDU2 group 0xFECA)
+   reaches every listener of the other FD node as one payload that parses back to exactly the lamp states and the codes; the
+   broadcast session number is back in the pool *)
+Theorem C16_dm1_over_fd_broadcast_end_to_end : forall pl awl rsl mil dtcs sa t0 A0 B0,
+  lamp_state pl -> lamp_state awl -> lamp_state rsl -> lamp_state mil -> Forall dtc_ok dtcs ->
+  15 <= Z.of_nat (length dtcs) < 4194303 -> 0 <= sa < 255 -> 0 < t0 ->
+  0 < f_bam_iv A0 < tp22_T1 -> 2 * f_bam_iv A0 < tp22_T1 ->
+  f_snd A0 = [] /\ f_rcv A0 = [] /\ f_mpg A0 = [] /\ n_timers (base A0) = [] /\ f_bam A0 = repeat true tp22_pool_bam ->
+  f_snd B0 = [] /\ f_rcv B0 = [] /\ f_mpg B0 = [] /\ n_timers (base B0) = [] ->
+  let p := dm1_build pl awl rsl mil dtcs in
+  dm1_priority p = 7 /\
+  exists j, let s := Net22.steps22 j (Net22.net22_send (Net22.net22_0 A0 B0 t0) 0 254 202 (dm1_priority p) sa p) in
+    Net22.pa s = [] /\ Net22.pb s = [] /\ f_snd (Net22.fa s) = [] /\ f_rcv (Net22.fa s) = [] /\
+    f_snd (Net22.fb s) = [] /\ f_rcv (Net22.fb s) = [] /\
+    f_bam (Net22.fa s) = repeat true tp22_pool_bam /\
+    Net22.evb2 s = deliveries (base B0) 7 65226 sa addr_GLOBAL p /\
+    dm1_parse p = Some ([pl; awl; rsl; mil], dtcs).
+Proof. exact dm1_over_fd_broadcast_end_to_end. Qed.
+Print Assumptions C16_dm1_over_fd_broadcast_end_to_end.
